@@ -187,7 +187,8 @@ class Report:
                 "rules": by_rule,
                 "instance_floors": {k: {"seen": v[0], "floor": v[1]} for k, v in self.floors.items()},
                 "exhaustive": True,
-                "trusted_base": ["CPython ast parser", "the rule tables in /verif/rules (frozen, reasons inline)"],
+                "trusted_base": ["CPython ast parser", "engine/normal.py normal form and rules/roles.py role renaming (behaviour-preserving rewrites of the parsed tree)",
+                                 "the rule tables in /verif/rules (frozen, reasons inline)"],
                 **{k: v for k, v in self.meta.items() if k != "explanation"},
             },
             "assumptions": self.assumptions,
